@@ -686,7 +686,11 @@ def _rule_sweep_closed(prog, chk, R, gc, markObject, objfields, entry):
                 detail = 'fixpoint loop body is not a single test'
                 continue
             cj = _conj(b[0]['c'])
-            P = [c for c in cj if not (is_not_marked(c, v) or is_count(c, v, neg=True))]
+            if any(is_not_marked(c, v) for c in cj):
+                detail = 'only unreachable referrers are added: a reachable object that owns one with observable destruction may itself be shared with a garbage cycle, whose early or late ' \
+                         'collection then decides when that object dies'
+                continue
+            P = [c for c in cj if not is_count(c, v, neg=True)]
             has_notin = any(is_count(c, v, neg=True) for c in cj)
             t = body_list(b[0])
             sets = any(x.get('k') == 'expr' and (SX.write_target(x['e']) or [None])[0] is not None and SX.strip(SX.write_target(x['e'])[0]).get('id') == gid and
